@@ -134,6 +134,13 @@ fn do_fake_far(inj: &mut InjectorPP, i: usize) {
     }
 }
 
+/// U: an ordinary (sync) function of the same program is given a counted fake that will NOT be called as often as promised: the injector's
+/// drop then reports it by panicking.  The async fakes of that injector must be gone afterwards all the same.
+#[inline(never)] pub fn sync_helper(x: u64) -> u64 { std::hint::black_box(x) + 3 }
+fn do_unmet_count(inj: &mut InjectorPP) {
+    inj.when_called(injectorpp::func!(fn (sync_helper)(u64) -> u64)).will_execute(injectorpp::fake!(func_type: fn(_x: u64) -> u64, returns: 1, times: 2));
+}
+
 fn one(line: &str) -> String {
     let mut it = line.split_whitespace();
     let id = it.next().unwrap();
@@ -170,12 +177,13 @@ fn one(line: &str) -> String {
                 if inj.is_none() { xres.push(h.join().unwrap()); } else { pending.push(h); }
                 out.push(format!("X:{}", early as u8));
             }
-            "D" => { inj = None; for h in pending.drain(..) { xres.push(h.join().unwrap()); } out.push("D".into()); }
+            "U" => { if let Some(j) = inj.as_mut() { do_unmet_count(j); out.push("U".into()); } else { out.push("U-noinj".into()); } }
+            "D" => { let j = inj.take(); let _ = std::panic::catch_unwind(std::panic::AssertUnwindSafe(move || drop(j))); for h in pending.drain(..) { xres.push(h.join().unwrap()); } out.push("D".into()); }
             "N" => { if inj.is_none() { inj = Some(InjectorPP::new()); } out.push("N".into()); }
             _ => out.push("?".into()),
         }
     }
-    drop(inj);
+    let _ = std::panic::catch_unwind(std::panic::AssertUnwindSafe(move || drop(inj)));
     for h in pending.drain(..) { xres.push(h.join().unwrap()); }
     let after: Vec<String> = (0..NFN).map(do_await).collect();
     format!("{id} RES {}\n{id} XRES {}\n{id} AFTER {}\n", out.join(","), xres.join(","), after.join(","))
